@@ -2,6 +2,7 @@ import Rare.Base.Proto
 import Rare.Model.C07
 import Rare.Model.C07Sorted
 import Rare.Drv.C07Acc
+import Rare.Drv.C07NumF64
 /-!
 Line-protocol driver for C07 (see `harness/corr/c07.go` for the op list and dump formats).
 
@@ -255,6 +256,8 @@ def handle : List String → String
     | some d, some hist => runSortedTable (nvSorter srt) d hist
     | _, _ => "bad-args"
   | "acc" :: rest => (C07Acc.handle ("acc" :: rest)).getD "bad-args"
+  | ["agg", "numf", k, r, h, q] => (C07NumF64.handle ["agg", "numf", k, r, h, q]).getD "bad-args"
+  | ["agg", "numfv", k, r, h, q] => (C07NumF64.handle ["agg", "numfv", k, r, h, q]).getD "bad-args"
   | ["agg", "counter", h] =>
     match decHexList h with
     | some hist => "ok " ++ bar ((prefixes Counter.sample {} hist).map dumpCounter)
